@@ -318,3 +318,39 @@ func VerifAddCloserDuringRun() {
 	}
 	zzverif.Cover("addcloser_during_run_done")
 }
+
+// A grace period but no closer registered by the user (the only closer is the manager's own grace-period watchdog):
+// once the runners have returned, Run and Close return without the clock moving, and the fatal-shutdown action never
+// fires - also when the grace period then passes.
+//
+//verif:harness prop=C12 name=grace_without_closers threads=5 sched=delay preempt=2 t_preempt=3 unwind=10 witness=lenient
+func VerifGraceWithoutClosers() {
+	grace := 5 * time.Second
+	start := zzverif.TimeFromNanos(1_000_000_000)
+	clk := zzverifstubs.NewClock(start)
+	var rs []Runner
+	if zzverif.Bool("with_runner") {
+		rs = append(rs, func(ctx context.Context) error { return nil })
+	}
+	mgr := NewRunnerCloserManager(vNopLogger(), &grace, rs...)
+	mgr.clock = clk
+	fatal := 0
+	mgr.WithFatalShutdown(func() { zzverif.Ghost(func() { fatal++ }) })
+	done := make(chan error, 1)
+	go func() {
+		zzverif.MustFinish() // without any clock advance
+		done <- mgr.Run(context.Background())
+	}()
+	if len(rs) == 0 {
+		// no runner: Run waits for Close
+		zzverif.WaitQuiescent()
+		zzverif.Assert(mgr.Close() == nil, "close_returns_nil")
+	}
+	zzverif.Assert(<-done == nil, "run_returns_nil")
+	zzverif.Assert(mgr.Close() == nil, "close_after_run_returns_at_once")
+	clk.Advance(2 * grace)
+	zzverif.WaitQuiescent()
+	zzverif.Assert(fatal == 0, "no_fatal_when_nothing_outlasts_the_grace_period")
+	zzverif.Assert(zzverif.ThreadsAliveIs(0), "watchdog_gone")
+	zzverif.Cover("grace_without_closers_done")
+}
